@@ -17,12 +17,19 @@ import (
 type BufMode int
 
 const (
-	BufExact  BufMode = iota // slice exactly fills its array
-	BufSub                   // buf[o:o+len] inside a larger array holding live sentinel data (cap > len)
-	BufShared                // one buffer reused for all keys (scanner idiom)
+	BufExact      BufMode = iota // slice exactly fills its array
+	BufSub                       // buf[o:o+len] inside a larger array holding live sentinel data (cap > len)
+	BufShared                    // one buffer reused for all keys (scanner idiom)
+	BufSubZero                   // as BufSub, the surrounding bytes are zero (a zero-initialised buffer)
+	BufSharedZero                // as BufShared, the buffer is zeroed before every key
 )
 
-func (m BufMode) String() string { return [...]string{"exact", "subslice", "shared"}[m] }
+func (m BufMode) String() string {
+	return [...]string{"exact", "subslice", "shared", "subslice-zero", "shared-zero"}[m]
+}
+
+// AllBufModes lists the buffer modes.
+var AllBufModes = []BufMode{BufExact, BufSub, BufShared, BufSubZero, BufSharedZero}
 
 type bufDrv struct {
 	t      art.Tree[[]byte, int]
@@ -76,15 +83,22 @@ func (d *bufDrv) arg(i int) []byte {
 		arr = make([]byte, len(k))
 		copy(arr, k)
 		s = arr[:len(k):len(k)]
-	case BufSub:
+	case BufSub, BufSubZero:
 		arr = make([]byte, len(k)+16)
-		for j := range arr {
-			arr[j] = 0xA0 | byte(j&0xf)
+		if d.mode == BufSub {
+			for j := range arr {
+				arr[j] = 0xA0 | byte(j&0xf)
+			}
 		}
 		copy(arr[8:], k)
 		s = arr[8 : 8+len(k)] // capacity reaches into live caller data
-	case BufShared:
+	case BufShared, BufSharedZero:
 		arr = d.shared
+		if d.mode == BufSharedZero {
+			for j := range arr {
+				arr[j] = 0
+			}
+		}
 		copy(arr, k)
 		s = arr[:len(k)]
 	}
@@ -99,7 +113,7 @@ func (d *bufDrv) after(call string) {
 		if !bytes.Equal(arr, d.snaps[i]) && d.fault == "" {
 			d.fault = fmt.Sprintf("%s (buffer mode %s): caller memory changed from %x to %x", call, d.mode, d.snaps[i], arr)
 		}
-		if d.mode != BufShared {
+		if d.mode != BufShared && d.mode != BufSharedZero {
 			for j := range arr {
 				arr[j] = 0xEE
 			}
@@ -156,12 +170,13 @@ func (d *bufDrv) Seq(q Query) func(yield func(Pair) bool) {
 		s = d.t.Prefix(d.arg(q.A))
 	case SeqRange:
 		call = fmt.Sprintf("Range(%q,%q)", d.keys[q.A], d.keys[q.B])
-		if d.mode == BufShared {
+		if d.mode == BufShared || d.mode == BufSharedZero {
 			// two live arguments cannot share one buffer: the second one gets its own sub-slice buffer
+			saved := d.mode
 			a := d.arg(q.A)
 			d.mode = BufSub
 			b := d.arg(q.B)
-			d.mode = BufShared
+			d.mode = saved
 			s = d.t.Range(a, b)
 		} else {
 			s = d.t.Range(d.arg(q.A), d.arg(q.B))
@@ -316,7 +331,7 @@ func C13Registry(tier string) []UniverseDef {
 			FanUniverse(FanSpec{Name: "FAN16@15", Hold: 15, Present: 3, Absent: 3}), FanUniverse(FanSpec{Name: "FAN48@14", Hold: 14, Extra: 3, Present: 2, Absent: 2, Path: P(12)}))
 	}
 	for _, sp := range specs {
-		for _, mode := range []BufMode{BufExact, BufSub, BufShared} {
+		for _, mode := range AllBufModes {
 			sp, mode := sp, mode
 			name := "alpha[[]byte]/" + sp.Name + "/buf-" + mode.String()
 			out = append(out, UniverseDef{Name: name, Build: func() *Universe {
@@ -331,7 +346,7 @@ func C13Registry(tier string) []UniverseDef {
 		{Name: "LONG5", Prefix: true, Free: []string{P(16) + "a", P(16) + "A", P(16) + "b", P(16) + "ab", "z"}, Probes: []string{P(16)}, Prefixes: []string{P(16), P(10)}},
 	}
 	for _, sp := range csp {
-		for _, mode := range []BufMode{BufExact, BufSub, BufShared} {
+		for _, mode := range AllBufModes {
 			sp, mode := sp, mode
 			name := fmt.Sprintf("collation[[]byte,und]/%s/buf-%s", sp.Name, mode)
 			out = append(out, UniverseDef{Name: name, Build: func() *Universe {
